@@ -321,8 +321,12 @@ def sole_result(E, h, pred):
     if not leaves:
         return False, "no result expression found"
     bad = []
+    it = E.item_by_dp.get(h["dp"]) or {}
+    # a function returning bool has no `?`: with a single result expression the only other way out is a panic, which
+    # is not an answer (`cast_value!`-style matches with an unreachable arm narrow the path but do not answer differently)
+    total = it.get("output") == "bool"
     for x in leaves:
         n, fr = sem.tail_value(S, x.node, x.frame)
-        if x.pc_has_conditions() or x.in_loop or not pred(sem.peel(n), S, fr):
+        if (x.pc_has_conditions() and not (total and len(leaves) == 1)) or x.in_loop or not pred(sem.peel(n), S, fr):
             bad.append(x.node.get("sp", "?"))
     return (not bad and len(leaves) == 1), ("results: %d; not the delegate or conditional: %s" % (len(leaves), bad))
